@@ -17,7 +17,10 @@ def batch(exe, lines, timeout=600):
     if out and out[-1] == '':
         out.pop()
     if r.returncode != 0 or len(out) != len(lines):
-        raise BuildError('driver %s failed rc=%s got %d/%d lines: %s' % (exe, r.returncode, len(out), len(lines), r.stderr[-1500:]))
+        e = BuildError('driver %s failed rc=%s got %d/%d lines: %s' % (exe, r.returncode, len(out), len(lines), r.stderr[-1500:]))
+        e.culprit = lines[len(out)] if len(out) < len(lines) else None   # the first line that was not answered
+        e.rc = r.returncode
+        raise e
     return out
 
 def py_crc64(data, init=0):
